@@ -1,8 +1,36 @@
 (** C08 - float text I/O is lossless and base/precision changes are faithfully rounded. Statements only. *)
 From Dashu Require Import Base.Prelude Float.RoundSpec Float.RoundSpecProof Float.Contract Float.Model Float.ModelProof
-  Int.IoSpec Float.TextIoSpec Float.TextIoModel Float.BaseConvProof Float.TextIoProof.
+  Int.IoSpec Float.TextIoSpec Float.TextIoModel Float.BaseConvProof Float.TextIoProof Float.ParseProof Float.TextIoExamples.
 From DashuGen Require Import RoundTables.
 Open Scope Z_scope.
+
+(** ** parsing: every text of the documented grammar (parse_spec = the grammar read from left to right: sign,
+    optional 0x for base 2, digits with underscores, optional point and fraction, optional scale marker of
+    the base and decimal scale) is parsed by Repr::from_str_native to exactly the written value, the
+    precision being the number of written digits *)
+
+Theorem C08_parse_grammar_exact : forall B s v, radix_valid B = true -> parse_spec B s = Some v -> parse_asis B s = Ok v.
+Proof. exact parse_asis_complete. Qed.
+Print Assumptions C08_parse_grammar_exact.
+
+(** ** print without options, then parse: the same number *)
+
+Theorem C08_display_parse_roundtrip_spec : forall B, 2 <= B <= 36 -> forall m s e,
+  (s mod B <> 0 \/ (s = 0 /\ e = 0)) -> in_isize e = true ->
+  parse_spec B ((if s <? 0 then [45] else []) ++ display_body_spec B m s e None) = Some (s, e, printed_digits B s e).
+Proof. exact display_parse_roundtrip_spec. Qed.
+Print Assumptions C08_display_parse_roundtrip_spec.
+
+Theorem C08_display_parse_roundtrip_asis : forall B, 2 <= B <= 36 -> forall m s e,
+  (s mod B <> 0 \/ (s = 0 /\ e = 0)) -> in_isize e = true ->
+  parse_asis B ((if s <? 0 then [45] else []) ++ fmt_round_body_asis B m s e None) = Ok (s, e, printed_digits B s e).
+Proof. exact display_parse_roundtrip_asis. Qed.
+Print Assumptions C08_display_parse_roundtrip_asis.
+
+Theorem C08_normal_form_unique : forall B, 2 <= B -> forall a i b j, a mod B <> 0 -> b mod B <> 0 -> 0 <= i -> 0 <= j ->
+  a * B ^ i = b * B ^ j -> a = b /\ i = j.
+Proof. exact normal_unique. Qed.
+Print Assumptions C08_normal_form_unique.
 
 (** ** printing: Repr::fmt_round (Display) prints the specified text - integer part, point, exactly the
     requested number of fractional digits of the value rounded by spec_round *)
@@ -94,7 +122,38 @@ Theorem C08_div_long : forall NB, 2 <= NB -> forall p m s1 e1 s2 e2, 1 <= p -> 0
 Proof. exact div_long_spec. Qed.
 Print Assumptions C08_div_long.
 
+Theorem C08_convert_small_neg : forall NB, 2 <= NB -> forall B p m s e, NB <> B -> ilog_exact NB B <= 1 -> ilog_exact B NB <= 1 ->
+  2 <= B -> 1 <= p -> - threshold_small_exp <= e < 0 ->
+  let '(n, ne) := normalize NB s 0 in
+  let '(d, de) := normalize NB (B ^ (- e)) 0 in
+  0 < d /\
+  (dlen NB n <= p + dlen NB d ->
+     let k := repr_div_shift NB p n d in
+     0 <= k /\
+     exists a, repr_div NB p m n ne d de = Ok a /\ approx_exp a = ne - de - k /\
+       approx_sig a = spec_round m (n * NB ^ k) d /\
+       (match a with AExact q _ => q * d = n * NB ^ k | AInexact _ _ _ => (n * NB ^ k) mod d <> 0 end) /\
+       (Z.rem n d <> 0 -> NB ^ (p - 1) * d <= Z.abs n * NB ^ k < NB ^ (p + 1) * d)) /\
+  (p + dlen NB d < dlen NB n -> convert_base_asis B NB p m s e = div_long NB p m n ne d de).
+Proof. exact convert_small_neg. Qed.
+Print Assumptions C08_convert_small_neg.
+
 (** ** the defects found, as theorems about the old behaviour / the observed answers *)
+
+Theorem C08_parse_before_fix_refuted :
+  parse_unsigned_old 10 [43; 53] = Ok 5 /\ parse_unsigned 10 [43; 53] = Err E_InvalidDigit /\
+  parse_spec 10 [49; 46; 43; 53] = None /\ parse_asis 10 [49; 46; 43; 53] = Err E_InvalidDigit /\
+  parse_spec 2 [48; 120; 46] = None /\ parse_asis 2 [48; 120; 46] = Err E_NoDigits.
+Proof. exact parse_before_fix_refuted. Qed.
+Print Assumptions C08_parse_before_fix_refuted.
+
+Theorem C08_sci_before_fix_refuted :
+  sci_layout 10 false 996 (Some 1) (sci_rounded_old 10 MHalfAway 996 (-2) (Some 1)) = [49; 46; 48; 48; 101; 49] /\
+  sci_body_spec 10 MHalfAway false 996 (-2) (Some 1) = [49; 46; 48; 101; 49] /\
+  sci_body_asis 10 MHalfAway false 996 (-2) (Some 1) = [49; 46; 48; 101; 49].
+Proof. exact sci_before_fix_refuted. Qed.
+Print Assumptions C08_sci_before_fix_refuted.
+
 
 Theorem C08_convert_base_before_fix_refuted :
   convert_exact_old 2 (1 * 10 ^ 30) 0 = CDone 931322574615478515625 30 FExact /\
